@@ -69,9 +69,7 @@ def delE (e : Nat) (s : SState) : SState :=
     the snapshot -/
 def begin (e g : Nat) (s : SState) : SState × Option ((Nat × Nat) × List Nat) :=
   let x := s.sig e g
-  let start := match x.outerStart with
-    | some t => t
-    | none => s.clock
+  let start := x.outerStart.getD s.clock
   let x' : Sig := { x with outerStart := some start, depth := x.depth + 1 }
   (s.setSig e g x', some ((e, g), (x.live.filter (fun c => c.uid < start)).map (·.uid)))
 
